@@ -27,6 +27,7 @@ ASSUMPTIONS = ["system ids are unique within a description and agent-group prefi
                "duplicate errors apply, which is C01/C04's domain)"]
 
 EVENTS = []
+SEEN = []
 CURRENT = {}
 ME = "vf.props.c18"
 NAMES = ("DModel", "DSystem", "DAgent", "hook", "swap_env_hook")
@@ -65,6 +66,9 @@ class DAgent(Agent, IDecodable):
 
 def hook(params: dict):
     EVENTS.append(("hook", params["key"], (params["model"] is CURRENT.get("model")) if "model" in params else None))
+    if "model" in params:          # what the hook can SEE: systems registered and agents in the environment so far
+        m = params["model"]
+        SEEN.append((params["key"], len(m.systems.systems), len(m.environment)))
 
 
 def swap_env_hook(params: dict):
@@ -96,7 +100,7 @@ def build_description(spec, di):
         desc["pre_model_decode"] = _mod({"func": "hook", "params": {"key": f"d{di}:pre_model"}}, use_mod)
     if hooks.get("post_model"):
         desc["post_model_decode"] = _mod({"func": "hook", "params": {"key": f"d{di}:post_model"}}, use_mod)
-    for si, s in enumerate(spec.get("systems", [])[:4]):
+    for si, s in enumerate(spec.get("systems", [])[:80]):
         params = {"id": f"sys{si}", "priority": int(s.get("priority", 0))}
         for k in ("frequency", "start", "end"):
             if s.get(k) is not None:
@@ -109,8 +113,8 @@ def build_description(spec, di):
         if s.get("post"):
             sd["post_system_init"] = _mod({"func": "hook", "params": {"key": f"d{di}:post_sys{si}"}}, use_mod)
         desc["systems"].append(sd)
-    for gi, g in enumerate(spec.get("groups", [])[:4]):
-        gd = _mod({"name": "DAgent", "number": max(0, min(int(g.get("n", 1)), 5)), "params": {"prefix": f"g{gi}_"}}, use_mod)
+    for gi, g in enumerate(spec.get("groups", [])[:8]):
+        gd = _mod({"name": "DAgent", "number": max(0, min(int(g.get("n", 1)), 300)), "params": {"prefix": f"g{gi}_"}}, use_mod)
         if g.get("pre"):
             gd["pre_agent_init"] = _mod({"func": "swap_env_hook" if g.get("swap") else "hook", "params": {"key": f"d{di}:pre_grp{gi}"}}, use_mod)
         if g.get("post"):
@@ -165,6 +169,7 @@ def run_case(case):
                 via_json = bool((int(case.get("json_mask", 0)) >> n) & 1)
                 desc = pristine[di]
                 del EVENTS[:]
+                del SEEN[:]
                 CURRENT.clear()
                 where = f"decode #{n} of description {di} via {'JsonDecoder' if via_json else 'dict Decoder'}"
                 try:
@@ -188,6 +193,27 @@ def run_case(case):
                     elif any(e[-1] is False for e in got):
                         clause = "model-not-passed"
                     raise Violation(clause, f"{where}: event {i}: got {got[i:i + 3]}, expected {exp[i:i + 3]}; description {_brief(desc)}")
+                # what system-/agent-level hooks saw when they ran: everything listed before them already exists
+                exp_seen, nsys, nag = [], 0, 0
+                for si, sd in enumerate(desc["systems"]):
+                    if "pre_system_init" in sd:
+                        exp_seen.append((f"d{di}:pre_sys{si}", nsys, 0))
+                    nsys += 1
+                    if "post_system_init" in sd:
+                        exp_seen.append((f"d{di}:post_sys{si}", nsys, 0))
+                for gi, gd in enumerate(desc["agents"]):
+                    swap = gd.get("pre_agent_init", {}).get("func") == "swap_env_hook"
+                    if "pre_agent_init" in gd and not swap:
+                        exp_seen.append((f"d{di}:pre_grp{gi}", nsys, nag))
+                    if swap:
+                        nag = 0
+                    nag += gd["number"]
+                    if "post_agent_init" in gd:
+                        exp_seen.append((f"d{di}:post_grp{gi}", nsys, nag))
+                if list(SEEN) != exp_seen:
+                    i = next((j for j, (a, b) in enumerate(zip(SEEN, exp_seen)) if a != b), min(len(SEEN), len(exp_seen)))
+                    raise Violation("hook-saw-incomplete-model", f"{where}: (hook, systems registered, agents in the environment) seen "
+                                                                 f"{list(SEEN)[i:i + 2]}, expected {exp_seen[i:i + 2]}; description {_brief(desc)}")
                 if model is not CURRENT.get("model"):
                     raise Violation("returned-model", f"{where}: the returned model is not the decoded model")
                 # contents
@@ -260,5 +286,15 @@ def strategy(tier):
     rich = st.fixed_dictionaries({"systems": st.lists(system, min_size=2, max_size=4), "groups": st.lists(group, min_size=2, max_size=4),
                                   "hooks": st.fixed_dictionaries({"pre_model": st.booleans(), "post_model": st.booleans()}),
                                   "module": st.sampled_from([True, True, False])})
-    return st.fixed_dictionaries({"descriptions": st.lists(wone_of(desc, rich), min_size=1, max_size=3),
+    from vf.fixtures import near_pow2
+    biggroup = st.fixed_dictionaries({"n": near_pow2(33, 130), "pre": st.booleans(), "post": st.just(True), "swap": st.just(False)})
+    big = st.fixed_dictionaries({"systems": st.lists(system, max_size=2), "groups": st.builds(lambda a, b, c: a + [b] + c, st.lists(group, max_size=1),
+                                                                                       biggroup, st.lists(group, max_size=2)),
+                                 "hooks": st.fixed_dictionaries({"pre_model": st.booleans(), "post_model": st.booleans()}),
+                                 "module": st.sampled_from([True, False])})
+    crowded = st.fixed_dictionaries({"systems": near_pow2(17, 70).flatmap(lambda n: st.lists(system, min_size=n, max_size=n)),
+                                     "groups": st.lists(group, max_size=2),
+                                     "hooks": st.fixed_dictionaries({"pre_model": st.booleans(), "post_model": st.booleans()}),
+                                     "module": st.just(True)})
+    return st.fixed_dictionaries({"descriptions": st.lists(wone_of(*([desc, rich] * 7 + [big, crowded])), min_size=1, max_size=3),
                                   "order": st.lists(st.integers(0, 2), min_size=1, max_size=5), "json_mask": st.integers(0, 31)})
